@@ -43,6 +43,10 @@ from common import run_driver, bg  # noqa: E402
 ID = 'C16'
 LEAN_MODULES = ['Py65.Props.C16', 'Py65.Proofs.MonFillGenEq', 'Py65.Proofs.MonMemGenEq', 'Py65.Props.C16g']
 NAMESPACES = ['Py65.Props.C16', 'Py65.Proofs.MonFillGenEq', 'Py65.Proofs.MonMemGenEq', 'Py65.Props.C16g']
+# library helpers (CPython behaviour modelled in lean/Py65/Model/*Rt*.lean ...) that the generated code of these
+# modules calls, derived by scanning the Lean sources (harness/rtscan.py); validated against CPython on every run
+import rtcheck  # noqa: E402
+RT_HELPERS = rtcheck.helpers_for(LEAN_MODULES)
 LEVEL = 'proof'
 USES_PROLOGUE = True
 USES_GEN = False
